@@ -573,6 +573,7 @@ Definition tok_of (v : val) : option tok :=
       | _, _, _ => None
       end
   | VL [VI 1; VI 4; VI o; VI c; VI e] => Some (Cs (KGrp (negb (o =? 0)) c) (negb (e =? 0)))
+  | VL [VI 1; VI 5; name; VI e] => match getZs name with Some n => Some (Cs (KMacro n) (negb (e =? 0))) | None => None end
   | _ => None
   end.
 
@@ -589,6 +590,7 @@ Definition out_tok (t : tok) : val :=
   | Cs (KDimen q) b => VL [VI 1; VI 2; VI (Qnum q); VI (Zpos (Qden q)); e b]
   | Cs (KGlue q a c) b => VL [VI 1; VI 3; VI (Qnum q); VI (Zpos (Qden q)); out_oq a; out_oq c; e b]
   | Cs (KGrp o c) b => VL [VI 1; VI 4; e o; VI c; e b]
+  | Cs (KMacro n) b => VL [VI 1; VI 5; ofZs n; e b]
   end.
 Definition out_toks (l : list tok) : val := VL (map out_tok l).
 Definition out_glue (g : gluev) : val := let '(d, st, sh) := g in VL [out_q d; out_oq st; out_oq sh].
